@@ -148,11 +148,11 @@ def run(P, C, tier):
                     n += 1
                     d = holes[1][1]
                     ok = d[0] == "phi" and {term_str(x) for x in d[1]} <= {"from('asc')", "from('desc')"} or "asc" in term_str(d)
-                    key = field_path(holes[0][1])
-                    C.ob("R4", "order-key#%d" % n, ok and key.split(".")[0] in ("ord",), go.loc(bi), "`%s %s`" % (key, term_str(d)[:40]))
+                    key = mir.full_path(go, holes[0][1])
+                    C.ob("R4", "order-key#%d" % n, ok and re.search(r"\.order_by\.\[\]\.(name|field\.short_name)$", key) is not None, go.loc(bi), "`%s %s`" % (key, term_str(d)[:40]))
         C.floor("R4", "order key templates", n, 3)
         # direction derives from ord.direction
-        dirs = [sb for sb in go.live_blocks() if go.blocks[sb]["t"]["k"] == "switch" and go.switch_term(sb)[0] == "discr" and field_path(go.switch_term(sb)[1]).endswith("ord.direction")]
-        C.ob("R4", "direction-from-key", len(dirs) == 1, go.loc(), "asc/desc chosen by a match on ord.direction")
+        dirs = [sb for sb in go.live_blocks() if go.blocks[sb]["t"]["k"] == "switch" and go.switch_term(sb)[0] == "discr" and mir.full_path(go, go.switch_term(sb)[1]).endswith(".order_by.[].direction")]
+        C.ob("R4", "direction-from-key", len(dirs) == 1, go.loc(), "asc/desc chosen by a match on the direction of the same order_by element")
     except mir.MissingAnchor as e:
         C.anchor_missing("R4", "get_order", e)
